@@ -160,6 +160,8 @@ class BarrelList(list):
             return self.lists[0].pop()
         index = a and a[0]
         if index == () or index is None or index == -1:
+            while len(lists) > 1 and not lists[-1]:
+                lists.pop()  # the last item lives in the last non-empty sublist
             ret = lists[-1].pop()
             if len(lists) > 1 and not lists[-1]:
                 lists.pop()
